@@ -1,5 +1,5 @@
 (* C18: the replay of a replayable report satisfies the stream grammar (Model/StreamOk.v, replay mode) and is contiguous. *)
-From Coq Require Import List NArith ZArith Bool Lia.
+From Coq Require Import List NArith ZArith Bool Lia Setoid.
 Import ListNotations.
 From LCC Require Import Base.Util Model.Report Model.Events Model.Replay Model.StreamOk Proofs.WriterP Proofs.ReplayP.
 
@@ -22,10 +22,10 @@ Lemma key_eqb_refl : forall k, key_eqb k k = true.
 Proof. intros [l t]. unfold key_eqb. simpl. rewrite location_eqb_refl, Z.eqb_refl. reflexivity. Qed.
 
 Lemma has_prefix_refl : forall p, has_prefix p p = true.
-Proof. induction p; simpl; auto. rewrite str_eqb_refl. assumption. Qed.
+Proof. induction p; simpl; auto. rewrite str_eqb_refl. simpl. assumption. Qed.
 
 Lemma has_prefix_app : forall p r, has_prefix p (p ++ r) = true.
-Proof. induction p; simpl; auto. intro. rewrite str_eqb_refl. auto. Qed.
+Proof. induction p; simpl; auto. intro. rewrite str_eqb_refl. simpl. auto. Qed.
 
 Lemma has_prefix_len : forall p q, has_prefix p q = true -> length p <= length q.
 Proof.
@@ -44,23 +44,13 @@ Qed.
 Lemma has_prefix_diverge : forall q a b k, str_eqb a b = false ->
   has_prefix (q ++ [b]) k = true -> has_prefix (q ++ [a]) k = false.
 Proof.
-  induction q; simpl; intros a b k Hab Hk.
-  - destruct k; [discriminate|]. rewrite andb_true_r in Hk. apply str_eqb_eq in Hk. subst. rewrite Hab. reflexivity.
-  - destruct k; [discriminate|]. apply andb_true_iff in Hk. destruct Hk as [H1 H2].
+  induction q as [|x q IH]; simpl; intros a b k Hab Hk.
+  - destruct k as [|y k]; [discriminate|]. rewrite andb_true_r in Hk. apply str_eqb_eq in Hk. subst. rewrite Hab. reflexivity.
+  - destruct k as [|y k]; [discriminate|]. apply andb_true_iff in Hk. destruct Hk as [H1 H2].
     rewrite H1. simpl. eauto.
 Qed.
 
 Definition below (u k : path) : bool := has_prefix u k && negb (path_eqb u k).
-
-Lemma below_len : forall u k, below u k = true -> length u < length k.
-Proof.
-  unfold below. intros. apply andb_true_iff in H. destruct H as [H1 H2].
-  apply has_prefix_len in H1. apply negb_true_iff in H2.
-  destruct (Nat.eq_dec (length u) (length k)); [|lia].
-  exfalso. clear H1. revert k H2 e. induction u; destruct k; simpl; intros; try discriminate.
-  (* same length and prefix => equal: but we only know they are not path_eqb; use has_prefix? *)
-  all: try lia.
-Abort.
 
 Lemma has_prefix_same_len : forall u k, has_prefix u k = true -> length u = length k -> path_eqb u k = true.
 Proof.
@@ -104,19 +94,13 @@ Proof.
   destruct q; discriminate.
 Qed.
 
-Lemma parent_below : forall k q, q <> [] -> parent_of k = q -> below q k = true.
-Proof.
-  intros k q Hq Hk. subst q.
-  assert (exists x, k = parent_of k ++ [x]).
-  { clear Hq. induction k; simpl. - exists []. simpl in *. (* parent_of [] = [] *) Abort.
-
 Lemma parent_split : forall k, k <> [] -> exists x, k = parent_of k ++ [x].
 Proof.
   induction k; intros; [contradiction|].
   destruct k as [|b k'].
   - exists a. reflexivity.
   - destruct IHk as [x Hx]; [discriminate|]. exists x.
-    change (parent_of (a :: b :: k')) with (a :: parent_of (b :: k')). simpl app. rewrite <- Hx. reflexivity.
+    change (parent_of (a :: b :: k')) with (a :: parent_of (b :: k')). rewrite <- app_comm_cons. rewrite <- Hx. reflexivity.
 Qed.
 
 Lemma parent_below : forall k q, q <> [] -> parent_of k = q -> below q k = true.
@@ -146,7 +130,8 @@ Proof.
   intros sm k v. induction p as [|a r IH]; intros done Hk; simpl; auto.
   assert (E : path_eqb k (done ++ [a]) = false).
   { destruct (path_eqb k (done ++ [a])) eqn:E; auto. apply path_eqb_eq in E. subst k.
-    rewrite <- app_assoc in Hk. simpl in Hk. rewrite has_prefix_app in Hk. discriminate. }
+    replace (done ++ a :: r) with ((done ++ [a]) ++ r) in Hk by (rewrite <- app_assoc; reflexivity).
+    rewrite has_prefix_app in Hk. discriminate. }
   rewrite E. destruct (lookup path_eqb (done ++ [a]) sm); auto.
   rewrite IH; auto. rewrite <- app_assoc. assumption.
 Qed.
@@ -179,4 +164,893 @@ Proof.
   intros sm. induction p as [|a p IH]; intros r done H; simpl in *; auto.
   destruct (lookup path_eqb (done ++ [a]) sm); [|discriminate].
   apply andb_true_iff in H. destruct H as [H1 H2]. rewrite H1. simpl. eauto.
+Qed.
+
+Lemma str_eqb_sym_false : forall a b, str_eqb a b = false -> str_eqb b a = false.
+Proof.
+  intros. destruct (str_eqb b a) eqn:E; auto. apply str_eqb_eq in E. subst. rewrite str_eqb_refl in H. discriminate.
+Qed.
+
+Lemma path_eqb_child : forall u a b, str_eqb a b = false -> path_eqb (u ++ [a]) (u ++ [b]) = false.
+Proof.
+  intros. destruct (path_eqb (u ++ [a]) (u ++ [b])) eqn:E; auto.
+  apply path_eqb_eq in E. apply app_inv_head in E. inversion E. subst. rewrite str_eqb_refl in H. discriminate.
+Qed.
+
+Lemma prefixes_open_new_child : forall sm v n pp done,
+  ss_ended v = false -> prefixes_open sm done pp = true ->
+  prefixes_open ((done ++ pp ++ [n], v) :: sm) done (pp ++ [n]) = true.
+Proof.
+  intros sm v n. induction pp as [|a r IH]; intros done Hv H.
+  - simpl. rewrite path_eqb_refl. rewrite Hv. reflexivity.
+  - simpl in *. rewrite path_eqb_false_len. 2: rewrite !app_length; simpl; rewrite app_length; simpl; lia.
+    destruct (lookup path_eqb (done ++ [a]) sm); [|discriminate].
+    apply andb_true_iff in H. destruct H as [H1 H2]. rewrite H1. simpl.
+    replace (done ++ a :: r ++ [n]) with ((done ++ [a]) ++ r ++ [n]) by (rewrite <- app_assoc; reflexivity).
+    apply IH; auto.
+Qed.
+
+(* ---------------- the checker in replay mode ---------------- *)
+Definition with_steps (c : cstate) S := mkC (c_phase c) (c_setup c) (c_teardown c) (c_suites c) (c_tests c) S.
+
+Lemma result_open_with_steps : forall m c S loc, result_open m (with_steps c S) loc = result_open m c loc.
+Proof. intros. destruct loc; reflexivity. Qed.
+
+Lemma check_all_app : forall m l1 l2 c,
+  check_all m c (l1 ++ l2) = match check_all m c l1 with Some c' => check_all m c' l2 | None => None end.
+Proof. induction l1; simpl; intros; auto. destruct (check_event m c a); auto. Qed.
+
+Definition Open (u : path) (c : cstate) (st : sstate) : Prop :=
+  c_phase c = PRunning /\ c_teardown c = RNone /\ prefixes_open (c_suites c) [] u = true /\
+  lookup path_eqb u (c_suites c) = Some st /\ ss_ended st = false /\ u <> [].
+
+Lemma open_suite_Open : forall u c st, Open u c st -> open_suite c u = Some st.
+Proof.
+  intros u c st (H1 & H2 & H3 & H4 & H5 & H6). unfold open_suite, suite_open.
+  destruct u; [contradiction|]. rewrite H3, H2. simpl. assumption.
+Qed.
+
+Lemma Open_put_suite : forall u c st st', Open u c st -> ss_ended st' = false -> Open u (put_suite c u st') st'.
+Proof.
+  intros u c st st' (H1 & H2 & H3 & H4 & H5 & H6) Hs. unfold Open. cbn [put_suite c_phase c_teardown c_suites].
+  repeat split; auto.
+  - apply (prefixes_open_cons_self (c_suites c) st' u []); auto.
+  - simpl. rewrite path_eqb_refl. reflexivity.
+Qed.
+
+Lemma Open_put_test : forall u c st k x, Open u c st -> Open u (put_test c k x) st.
+Proof. intros u c st k x H. exact H. Qed.
+
+Lemma Open_with_steps : forall u c st S, Open u c st -> Open u (with_steps c S) st.
+Proof. intros u c st S H. exact H. Qed.
+
+(* extension of the maps by bindings below u *)
+Definition Ext (u : path) (c c' : cstate) : Prop :=
+  (exists ds, c_suites c' = ds ++ c_suites c /\ Forall (fun kv => has_prefix u (fst kv) = true) ds) /\
+  (exists dt, c_tests c' = dt ++ c_tests c /\ Forall (fun kv => below u (fst kv) = true) dt).
+
+Lemma Ext_refl : forall u c c', c_suites c' = c_suites c -> c_tests c' = c_tests c -> Ext u c c'.
+Proof. intros. split; exists []; split; auto. Qed.
+
+Lemma Ext_trans : forall u c1 c2 c3, Ext u c1 c2 -> Ext u c2 c3 -> Ext u c1 c3.
+Proof.
+  intros u c1 c2 c3 [[ds1 [E1 F1]] [dt1 [E2 F2]]] [[ds2 [E3 F3]] [dt2 [E4 F4]]].
+  split; [exists (ds2 ++ ds1)|exists (dt2 ++ dt1)]; split; try (apply Forall_app; auto).
+  - rewrite E3, E1, app_assoc. reflexivity.
+  - rewrite E4, E2, app_assoc. reflexivity.
+Qed.
+
+Lemma Ext_put_suite : forall u c st, Ext u c (put_suite c u st).
+Proof.
+  intros. split; [exists [(u, st)]|exists []]; split; auto. constructor; auto. simpl. apply has_prefix_refl.
+Qed.
+
+Lemma Ext_put_test : forall u c x st, Ext u c (put_test c (u ++ [x]) st).
+Proof.
+  intros. split; [exists []|exists [(u ++ [x], st)]]; split; auto. constructor; auto. simpl. apply below_child.
+Qed.
+
+Definition ExtSelf (u : path) (c c' : cstate) : Prop :=
+  c_tests c' = c_tests c /\ exists ds, c_suites c' = ds ++ c_suites c /\ Forall (fun kv => fst kv = u) ds.
+
+Lemma ExtSelf_refl : forall u c c', c_suites c' = c_suites c -> c_tests c' = c_tests c -> ExtSelf u c c'.
+Proof. intros. split; auto. exists []. split; auto. Qed.
+
+Lemma ExtSelf_put_suite : forall u c st, ExtSelf u c (put_suite c u st).
+Proof. intros. split; auto. exists [(u, st)]. split; auto. Qed.
+
+Lemma ExtSelf_trans : forall u c1 c2 c3, ExtSelf u c1 c2 -> ExtSelf u c2 c3 -> ExtSelf u c1 c3.
+Proof.
+  intros u c1 c2 c3 [T1 [ds1 [E1 F1]]] [T2 [ds2 [E2 F2]]]. split; [congruence|].
+  exists (ds2 ++ ds1). split; [rewrite E2, E1, app_assoc; reflexivity|apply Forall_app; auto].
+Qed.
+
+Lemma ExtSelf_Ext : forall u c c', ExtSelf u c c' -> Ext u c c'.
+Proof.
+  intros u c c' [T [ds [E F]]]. split; [exists ds|exists []]; split; auto.
+  eapply Forall_impl; [|exact F]. intros [k v] H. simpl in *. subst. apply has_prefix_refl.
+Qed.
+
+Lemma Ext_child : forall u x c c', Ext (u ++ [x]) c c' -> Ext u c c'.
+Proof.
+  intros u x c c' [[ds [E1 F1]] [dt [E2 F2]]]. split; [exists ds|exists dt]; split; auto.
+  - eapply Forall_impl; [|exact F1]. intros kv H. eapply has_prefix_trans; [apply has_prefix_app|exact H].
+  - eapply Forall_impl; [|exact F2]. intros kv H. eapply below_trans_child. exact H.
+Qed.
+
+Section Stream.
+  Variable now : Z.
+  Variable th : tid.
+  Let m := replay_mode.
+
+  (* ---------------- steps ---------------- *)
+  Lemma log_event_check : forall loc d lg c,
+    check_event m c (replay_log now th loc d lg)
+    = match c_phase c with PRunning => step_event m c loc d th 2 | _ => None end.
+  Proof. intros. destruct lg; reflexivity. Qed.
+
+  Lemma chk_logs : forall loc d logs c b,
+    c_phase c = PRunning -> result_open m c loc = true ->
+    lookup key_eqb (loc, th) (c_steps c) = Some (Some (d, b)) ->
+    exists S' b', check_all m c (map (replay_log now th loc d) logs) = Some (with_steps c S') /\
+                  lookup key_eqb (loc, th) S' = Some (Some (d, b')).
+  Proof.
+    intros loc d. induction logs as [|lg logs IH]; intros c b Hp Ho Hl.
+    - exists (c_steps c), b. split; auto. destruct c; reflexivity.
+    - cbn [map check_all]. rewrite log_event_check, Hp. unfold step_event. rewrite Ho. cbn [negb].
+      rewrite Hl. rewrite str_eqb_refl. cbn [guard].
+      destruct (IH (put_step c (loc, th) (Some (d, true))) true) as [S' [b' [E1 E2]]]; auto.
+      { cbn [put_step c_steps lookup]. rewrite key_eqb_refl. reflexivity. }
+      exists S', b'. split; auto.
+  Qed.
+
+  Lemma chk_step : forall loc st c, c_phase c = PRunning -> result_open m c loc = true ->
+    exists S', check_all m c (replay_step now th loc st) = Some (with_steps c S').
+  Proof.
+    intros loc st c Hp Ho. unfold replay_step. cbn [check_all check_event]. rewrite Hp.
+    unfold step_event at 1. rewrite Ho. cbn [negb].
+    set (c1 := put_step c (loc, th) (Some (st_description st, false))).
+    assert (E0 : match match lookup key_eqb (loc, th) (c_steps c) with Some (Some x) => Some x | _ => None end with
+                 | Some _ => guard (m_unfinished m) c1
+                 | None => Some c1 end = Some c1).
+    { destruct (lookup key_eqb (loc, th) (c_steps c)) as [[x|]|]; reflexivity. }
+    rewrite E0. rewrite check_all_app.
+    destruct (chk_logs loc (st_description st) (st_logs st) c1 false) as [S' [b' [E1 E2]]]; auto.
+    { unfold c1. cbn [put_step c_steps lookup]. rewrite key_eqb_refl. reflexivity. }
+    rewrite E1. destruct (truthy_time (st_end st)).
+    - cbn [check_all check_event c_phase with_steps]. unfold c1 at 1. cbn [put_step c_phase]. rewrite Hp.
+      unfold step_event. rewrite result_open_with_steps. change (result_open m c1 loc) with (result_open m c loc).
+      rewrite Ho. cbn [negb with_steps c_steps]. rewrite E2. rewrite str_eqb_refl. cbn [m m_empty_steps replay_mode orb andb guard].
+      eexists. reflexivity.
+    - cbn [check_all]. exists S'. reflexivity.
+  Qed.
+
+  Lemma chk_steps : forall loc steps c, c_phase c = PRunning -> result_open m c loc = true ->
+    exists S', check_all m c (replay_steps replay_step now th loc steps) = Some (with_steps c S').
+  Proof.
+    intros loc. induction steps as [|st steps IH]; intros c Hp Ho.
+    - exists (c_steps c). destruct c; reflexivity.
+    - unfold replay_steps. cbn [flat_map]. rewrite check_all_app.
+      destruct (chk_step loc st c Hp Ho) as [S1 E1]. rewrite E1.
+      destruct (IH (with_steps c S1)) as [S2 E2]; auto.
+      exists S2. unfold replay_steps in E2. rewrite E2. reflexivity.
+  Qed.
+End Stream.
+
+Section Stream2.
+  Variable now : Z.
+  Variable th : tid.
+  Let m := replay_mode.
+
+  (* ---------------- setup / teardown of a suite ---------------- *)
+  Lemma no_test_of_fresh : forall c u, u <> [] ->
+    Forall (fun kv => below u (fst kv) = false) (c_tests c) -> no_test_of c u = true.
+  Proof.
+    intros c u Hu H. unfold no_test_of. apply forallb_forall. intros kv Hin.
+    rewrite Forall_forall in H. specialize (H kv Hin).
+    destruct (path_eqb (parent_of (fst kv)) u) eqn:E; auto.
+    apply path_eqb_eq in E. rewrite (parent_below _ _ Hu E) in H. discriminate.
+  Qed.
+
+  Lemma chk_suite_setup : forall pp mt u o c,
+    u = pp ++ [m_name mt] ->
+    Open u c (mkS false RNone RNone) -> no_test_of c u = true -> opt_result_ok o = true ->
+    exists c' x, check_all m c (replay_phase replay_step now th (LocSuiteSetup u)
+                                  (ESuiteSetupStart (mkNode pp mt 0)) (ESuiteSetupEnd (mkNode pp mt 0)) o) = Some c' /\
+      Open u c' (mkS false x RNone) /\ ExtSelf u c c'.
+  Proof.
+    intros pp mt u o c Hu Hopen Hnt Hok.
+    destruct o as [r|]; [|exists c, RNone; split; [reflexivity|]; split; [exact Hopen|]; apply ExtSelf_refl; auto].
+    unfold replay_phase. cbn [check_all check_event]. unfold node_path. cbn [n_parent n_meta]. rewrite <- Hu.
+    pose proof Hopen as (Hp & _). rewrite Hp. rewrite (open_suite_Open _ _ _ Hopen). cbn [ss_setup ss_teardown rstate_eqb andb].
+    rewrite Hnt. cbn [guard].
+    set (c1 := put_suite c u (mkS false ROpen RNone)).
+    assert (Ho1 : Open u c1 (mkS false ROpen RNone)) by (apply (Open_put_suite u c _ _ Hopen); reflexivity).
+    rewrite check_all_app.
+    destruct (chk_steps now th (LocSuiteSetup u) (r_steps r) c1) as [S1 E1]; [exact Hp| |].
+    { cbn [result_open]. rewrite (open_suite_Open _ _ _ Ho1). cbn. exact Hnt. }
+    unfold m. setoid_rewrite E1.
+    destruct (truthy_time (r_end r)).
+    - cbn [check_all check_event c_phase with_steps]. change (c_phase c1) with (c_phase c). rewrite Hp.
+      unfold node_path. cbn [n_parent n_meta]. rewrite <- Hu.
+      rewrite (open_suite_Open u _ _ (Open_with_steps _ _ _ S1 Ho1)). cbn [ss_setup rstate_eqb andb m m_unfinished replay_mode orb guard ss_teardown].
+      eexists. exists RClosed. split; [reflexivity|]. split.
+      + apply (Open_put_suite u _ _ _ (Open_with_steps _ _ _ S1 Ho1)). reflexivity.
+      + eapply ExtSelf_trans; [apply (ExtSelf_put_suite u c (mkS false ROpen RNone))|].
+        apply (ExtSelf_put_suite u (with_steps c1 S1)).
+    - cbn [check_all]. eexists. exists ROpen. split; [reflexivity|]. split.
+      + apply Open_with_steps. exact Ho1.
+      + apply (ExtSelf_put_suite u c (mkS false ROpen RNone)).
+  Qed.
+
+  Lemma chk_suite_teardown : forall pp mt u o c su,
+    u = pp ++ [m_name mt] ->
+    Open u c (mkS false su RNone) -> opt_result_ok o = true ->
+    exists c' y, check_all m c (replay_phase replay_step now th (LocSuiteTeardown u)
+                                  (ESuiteTeardownStart (mkNode pp mt 0)) (ESuiteTeardownEnd (mkNode pp mt 0)) o) = Some c' /\
+      Open u c' (mkS false su y) /\ ExtSelf u c c'.
+  Proof.
+    intros pp mt u o c su Hu Hopen Hok.
+    destruct o as [r|]; [|exists c, RNone; split; [reflexivity|]; split; [exact Hopen|]; apply ExtSelf_refl; auto].
+    unfold replay_phase. cbn [check_all check_event]. unfold node_path. cbn [n_parent n_meta]. rewrite <- Hu.
+    pose proof Hopen as (Hp & _). rewrite Hp. rewrite (open_suite_Open _ _ _ Hopen).
+    cbn [ss_setup ss_teardown rstate_eqb andb m m_unfinished replay_mode orb guard].
+    set (c1 := put_suite c u (mkS false su ROpen)).
+    assert (Ho1 : Open u c1 (mkS false su ROpen)) by (apply (Open_put_suite u c _ _ Hopen); reflexivity).
+    rewrite check_all_app.
+    destruct (chk_steps now th (LocSuiteTeardown u) (r_steps r) c1) as [S1 E1]; [exact Hp| |].
+    { cbn [result_open]. rewrite (open_suite_Open _ _ _ Ho1). reflexivity. }
+    unfold m. setoid_rewrite E1.
+    destruct (truthy_time (r_end r)).
+    - cbn [check_all check_event c_phase with_steps]. change (c_phase c1) with (c_phase c). rewrite Hp.
+      unfold node_path. cbn [n_parent n_meta]. rewrite <- Hu.
+      rewrite (open_suite_Open u _ _ (Open_with_steps _ _ _ S1 Ho1)). cbn [ss_setup rstate_eqb andb m m_unfinished replay_mode orb guard ss_teardown].
+      eexists. exists RClosed. split; [reflexivity|]. split.
+      + apply (Open_put_suite u _ _ _ (Open_with_steps _ _ _ S1 Ho1)). reflexivity.
+      + eapply ExtSelf_trans; [apply (ExtSelf_put_suite u c (mkS false su ROpen))|].
+        apply (ExtSelf_put_suite u (with_steps c1 S1)).
+    - cbn [check_all]. eexists. exists ROpen. split; [reflexivity|]. split.
+      + apply Open_with_steps. exact Ho1.
+      + apply (ExtSelf_put_suite u c (mkS false su ROpen)).
+  Qed.
+
+  (* ---------------- tests ---------------- *)
+  Lemma chk_test : forall u t c st,
+    Open u c st -> ss_teardown st = RNone ->
+    lookup path_eqb (u ++ [m_name (t_meta t)]) (c_tests c) = None -> test_ok t = true ->
+    exists es c', replay_test replay_step now th u t = (es, None) /\ check_all m c es = Some c' /\
+      Open u c' st /\ c_suites c' = c_suites c /\
+      exists dt, c_tests c' = dt ++ c_tests c /\ Forall (fun kv => fst kv = u ++ [m_name (t_meta t)]) dt.
+  Proof.
+    intros u t c st Hopen Htd Hfresh Hok.
+    destruct t as [tm r]. cbn [t_meta t_result] in *.
+    pose proof Hopen as (Hp & _).
+    set (nd := mkNode u tm 0). set (p := u ++ [m_name tm]).
+    assert (Hnew : forall x, new_test m c nd x = Some (put_test c p x)).
+    { intro. unfold new_test. cbn [n_parent nd]. rewrite (open_suite_Open _ _ _ Hopen). rewrite Htd.
+      unfold node_path. cbn [n_parent n_meta nd]. rewrite Hfresh. reflexivity. }
+    unfold test_ok in Hok. cbn [t_result] in Hok. unfold replay_test. cbn [t_result t_meta]. fold nd.
+    destruct (bypassed r) eqn:Hb.
+    - unfold bypassed in Hb. destruct (r_status r) as [stt|] eqn:Es; [|discriminate].
+      apply orb_true_iff in Hb.
+      assert (Hpf : str_eqb stt s_passed || str_eqb stt s_failed = false).
+      { destruct Hb as [Hb|Hb]; apply str_eqb_eq in Hb; subst; reflexivity. }
+      rewrite Hpf.
+      assert (Hone : forall e, (e = ETestSkipped nd (r_status_details r) (event_time now (r_start r)) \/
+                                e = ETestDisabled nd (r_status_details r) (event_time now (r_start r))) ->
+                exists c', check_all m c [e] = Some c' /\ Open u c' st /\ c_suites c' = c_suites c /\
+                  exists dt, c_tests c' = dt ++ c_tests c /\ Forall (fun kv => fst kv = p) dt).
+      { intros e He. exists (put_test c p TBypassed). split.
+        - destruct He; subst e; cbn [check_all check_event]; rewrite Hp, Hnew; reflexivity.
+        - split; [exact Hopen|]. split; [reflexivity|]. exists [(p, TBypassed)]. split; auto. }
+      destruct (str_eqb stt s_skipped) eqn:Hsk.
+      + destruct (Hone _ (or_introl eq_refl)) as [c' [E1 E2]]. eexists. exists c'. split; [reflexivity|]. split; assumption.
+      + destruct Hb as [Hb|Hb]; [congruence|]. rewrite Hb.
+        destruct (Hone _ (or_intror eq_refl)) as [c' [E1 E2]]. eexists. exists c'. split; [reflexivity|]. split; assumption.
+    - assert (Hst : match r_status r with
+                    | None => True
+                    | Some stt => str_eqb stt s_passed || str_eqb stt s_failed = true end).
+      { pose proof Hok as Hok'. unfold result_ok in Hok'. repeat (apply andb_true_iff in Hok'; destruct Hok' as [Hok' ?]).
+        apply option_eqb_str_eq in H. rewrite H. unfold computed_status.
+        destruct (r_end r); auto. destruct (forallb step_successful (r_steps r)); reflexivity. }
+      set (started := fire (ETestStart nd (event_time now (r_start r))
+             :: replay_steps replay_step now th (LocTest (node_path nd)) (r_steps r)
+             ++ (if truthy_time (r_end r) then [ETestEnd nd (event_time now (r_end r))] else []))).
+      assert (Hsame : match r_status r with
+                      | None => started
+                      | Some st0 => if str_eqb st0 s_passed || str_eqb st0 s_failed then started
+                                    else if str_eqb st0 s_skipped then fire [ETestSkipped nd (r_status_details r) (event_time now (r_start r))]
+                                    else if str_eqb st0 s_disabled then fire [ETestDisabled nd (r_status_details r) (event_time now (r_start r))]
+                                    else ([], Some ValueError)
+                      end = started).
+      { destruct (r_status r); auto. rewrite Hst. reflexivity. }
+      rewrite Hsame. unfold started, fire.
+      set (c1 := put_test c p TStarted).
+      assert (Hro : result_open m c1 (LocTest p) = true).
+      { cbn [result_open]. unfold p. rewrite parent_of_child. fold p.
+        rewrite (open_suite_Open u c1 st Hopen). rewrite Htd.
+        cbn [c1 put_test c_tests lookup]. rewrite path_eqb_refl. reflexivity. }
+      destruct (chk_steps now th (LocTest p) (r_steps r) c1) as [S1 E1]; [exact Hp|exact Hro|].
+      destruct (truthy_time (r_end r)) eqn:Et.
+      + eexists. eexists. split; [reflexivity|].
+        cbn [check_all check_event]. rewrite Hp, Hnew. fold c1.
+        unfold node_path. cbn [n_parent n_meta nd]. fold p.
+        rewrite check_all_app. unfold m. rewrite E1.
+        cbn [check_all check_event c_phase with_steps]. change (c_phase c1) with (c_phase c). rewrite Hp.
+        unfold node_path. cbn [n_parent n_meta nd]. fold p.
+        unfold m in Hro. rewrite result_open_with_steps, Hro. cbn [andb m_unfinished replay_mode orb guard].
+        split; [reflexivity|]. split; [exact Hopen|]. split; [reflexivity|].
+        exists [(p, TEnded); (p, TStarted)]. split; auto.
+      + eexists. eexists. split; [reflexivity|].
+        cbn [check_all check_event]. rewrite Hp, Hnew. fold c1.
+        unfold node_path. cbn [n_parent n_meta nd]. fold p.
+        rewrite check_all_app. unfold m. rewrite E1.
+        cbn [check_all]. split; [reflexivity|]. split; [exact Hopen|]. split; [reflexivity|].
+        exists [(p, TStarted)]. split; auto.
+  Qed.
+
+  Lemma chk_tests : forall u st tests c,
+    Open u c st -> ss_teardown st = RNone ->
+    (forall t, In t tests -> lookup path_eqb (u ++ [m_name (t_meta t)]) (c_tests c) = None) ->
+    distinct (map (fun t => m_name (t_meta t)) tests) = true -> forallb test_ok tests = true ->
+    exists es c', seq_all (replay_test replay_step now th u) tests = (es, None) /\ check_all m c es = Some c' /\
+      Open u c' st /\ c_suites c' = c_suites c /\
+      exists dt, c_tests c' = dt ++ c_tests c /\ Forall (fun kv => exists x, fst kv = u ++ [x]) dt.
+  Proof.
+    intros u st. induction tests as [|t tests IH]; intros c Hopen Htd Hfresh Hd Hok.
+    - exists [], c. split; [reflexivity|]. split; [reflexivity|]. split; [exact Hopen|]. split; [reflexivity|]. exists []. split; [reflexivity|constructor].
+    - simpl in Hd, Hok. apply andb_true_iff in Hd. destruct Hd as [Hd1 Hd2].
+      apply andb_true_iff in Hok. destruct Hok as [Hok1 Hok2]. apply negb_true_iff in Hd1.
+      destruct (chk_test u t c st Hopen Htd (Hfresh t (or_introl eq_refl)) Hok1)
+        as [es1 [c1 [R1 [E1 [O1 [S1 [dt1 [T1 F1]]]]]]]].
+      destruct (IH c1 O1 Htd) as [es2 [c2 [R2 [E2 [O2 [S2 [dt2 [T2 F2]]]]]]]]; auto.
+      { intros t' Ht'. rewrite T1. rewrite lookup_app_none; [apply Hfresh; right; assumption|].
+        eapply Forall_impl; [|exact F1]. intros [k v] Hkv. simpl in Hkv. simpl. subst k.
+        apply path_eqb_child.
+        apply (existsb_false_in _ _ _ (m_name (t_meta t')) Hd1). apply in_map_iff. eauto. }
+      exists (es1 ++ es2), c2. split; [|split; [|split; [|split]]]; auto.
+      + cbn [seq_all]. rewrite R1, R2. reflexivity.
+      + rewrite check_all_app. rewrite E1. exact E2.
+      + congruence.
+      + exists (dt2 ++ dt1). split; [rewrite T2, T1, app_assoc; reflexivity|].
+        apply Forall_app. split; auto. eapply Forall_impl; [|exact F1]. intros kv Hkv. exists (m_name (t_meta t)). exact Hkv.
+  Qed.
+End Stream2.
+
+(* ---------------- suites ---------------- *)
+Lemma prefix_child_below : forall pp x k, has_prefix (pp ++ [x]) k = true -> below pp k = true.
+Proof.
+  intros. unfold below. rewrite (has_prefix_trans pp (pp ++ [x]) k); auto using has_prefix_app. simpl.
+  rewrite path_eqb_false_len; auto. apply has_prefix_len in H. rewrite app_length in H. simpl in H. lia.
+Qed.
+
+Lemma below_not_prefix_of : forall u k, below u k = true -> has_prefix k u = false.
+Proof.
+  intros. destruct (has_prefix k u) eqn:E; auto. apply has_prefix_len in E. apply below_len in H. lia.
+Qed.
+
+Lemma below_has_prefix : forall u k, below u k = true -> has_prefix u k = true.
+Proof. unfold below. intros. apply andb_true_iff in H. tauto. Qed.
+
+Section Stream3.
+  Variable now : Z.
+  Variable th : tid.
+  Let m := replay_mode.
+
+  Definition FS (u : path) (sm : list (path * sstate)) := Forall (fun kv => has_prefix u (fst kv) = false) sm.
+  Definition FT (u : path) (tm : list (path * tstate)) := Forall (fun kv => below u (fst kv) = false) tm.
+  Definition LoopInv (pp : path) (c : cstate) :=
+    c_phase c = PRunning /\ c_teardown c = RNone /\ prefixes_open (c_suites c) [] pp = true.
+
+  Definition suite_chk (s : suite_result) : Prop :=
+    suite_ok s = true -> forall pp c, LoopInv pp c ->
+      FS (pp ++ [m_name (s_meta_of s)]) (c_suites c) -> FT (pp ++ [m_name (s_meta_of s)]) (c_tests c) ->
+      exists es c', replay_suite replay_step now th pp s = (es, None) /\ check_all m c es = Some c' /\
+        c_phase c' = PRunning /\ c_teardown c' = RNone /\ Ext (pp ++ [m_name (s_meta_of s)]) c c'.
+
+  Lemma FS_child : forall u x sm, FS u sm -> FS (u ++ [x]) sm.
+  Proof.
+    intros u x sm H. eapply Forall_impl; [|exact H]. intros kv Hk. cbv beta in *.
+    destruct (has_prefix (u ++ [x]) (fst kv)) eqn:E; auto.
+    rewrite (has_prefix_trans u (u ++ [x]) (fst kv)) in Hk; auto using has_prefix_app.
+  Qed.
+
+  Lemma FT_child : forall u x tm, FT u tm -> FT (u ++ [x]) tm.
+  Proof.
+    intros u x tm H. eapply Forall_impl; [|exact H]. intros kv Hk. cbv beta in *.
+    destruct (below (u ++ [x]) (fst kv)) eqn:E; auto.
+    rewrite (below_trans_child _ _ _ E) in Hk. discriminate.
+  Qed.
+
+  Lemma chk_suites_loop : forall pp subs, Forall suite_chk subs -> forallb suite_ok subs = true ->
+    forall c, LoopInv pp c ->
+    (forall s', In s' subs -> FS (pp ++ [m_name (s_meta_of s')]) (c_suites c) /\ FT (pp ++ [m_name (s_meta_of s')]) (c_tests c)) ->
+    distinct (map (fun u => m_name (s_meta_of u)) subs) = true ->
+    exists es c', seq_all (replay_suite replay_step now th pp) subs = (es, None) /\ check_all m c es = Some c' /\
+      LoopInv pp c' /\
+      (exists ds, c_suites c' = ds ++ c_suites c /\ Forall (fun kv => below pp (fst kv) = true) ds) /\
+      (exists dt, c_tests c' = dt ++ c_tests c /\ Forall (fun kv => below pp (fst kv) = true) dt).
+  Proof.
+    intros pp. induction subs as [|s1 subs IH]; intros HP Hok c Hinv Hfresh Hd.
+    - exists [], c. split; [reflexivity|]. split; [reflexivity|]. split; [exact Hinv|].
+      split; exists []; split; auto.
+    - inversion HP as [|? ? P1 P2]; subst. simpl in Hok, Hd.
+      apply andb_true_iff in Hok. destruct Hok as [Hok1 Hok2].
+      apply andb_true_iff in Hd. destruct Hd as [Hd1 Hd2]. apply negb_true_iff in Hd1.
+      destruct (Hfresh s1 (or_introl eq_refl)) as [F1 F2].
+      destruct (P1 Hok1 pp c Hinv F1 F2) as [es1 [c1 [R1 [E1 [Hp1 [Ht1 [[ds1 [S1 G1]] [dt1 [T1 G2]]]]]]]]].
+      assert (Hinv1 : LoopInv pp c1).
+      { destruct Hinv as (_ & _ & Ha). split; [exact Hp1|]. split; [exact Ht1|].
+        rewrite S1. rewrite (prefixes_open_app_other (c_suites c) ds1 pp []); auto.
+        eapply Forall_impl; [|exact G1]. intros kv Hk. cbv beta in *. simpl.
+        apply below_not_prefix_of. eapply prefix_child_below. exact Hk. }
+      destruct (IH P2 Hok2 c1 Hinv1) as [es2 [c2 [R2 [E2 [Hinv2 [[ds2 [S2 G3]] [dt2 [T2 G4]]]]]]]]; auto.
+      { intros s' Hs'. destruct (Hfresh s' (or_intror Hs')) as [F3 F4].
+        assert (Hne : str_eqb (m_name (s_meta_of s')) (m_name (s_meta_of s1)) = false).
+        { apply str_eqb_sym_false. apply (existsb_false_in _ _ _ (m_name (s_meta_of s')) Hd1). apply in_map_iff. eauto. }
+        split.
+        - unfold FS. rewrite S1. apply Forall_app. split; [|exact F3].
+          eapply Forall_impl; [|exact G1]. intros kv Hk. cbv beta in *. eapply has_prefix_diverge; eauto.
+        - unfold FT. rewrite T1. apply Forall_app. split; [|exact F4].
+          eapply Forall_impl; [|exact G2]. intros kv Hk. cbv beta in *. eapply below_diverge; eauto. }
+      exists (es1 ++ es2), c2. split; [|split; [|split; [exact Hinv2|split]]].
+      + cbn [seq_all]. rewrite R1, R2. reflexivity.
+      + rewrite check_all_app. rewrite E1. exact E2.
+      + exists (ds2 ++ ds1). split; [rewrite S2, S1, app_assoc; reflexivity|].
+        apply Forall_app. split; auto. eapply Forall_impl; [|exact G1]. intros kv Hk. eapply prefix_child_below. exact Hk.
+      + exists (dt2 ++ dt1). split; [rewrite T2, T1, app_assoc; reflexivity|].
+        apply Forall_app. split; auto. eapply Forall_impl; [|exact G2]. intros kv Hk. eapply below_trans_child. exact Hk.
+  Qed.
+
+  Lemma replay_suite_chk : forall s, suite_chk s.
+  Proof.
+    induction s using suite_ind'. rename H into HP, m0 into mt.
+    unfold suite_chk. intros Hok pp c (Hp & Htd & Hanc) HFS HFT. cbn [s_meta_of] in *.
+    cbn [suite_ok] in Hok. repeat (apply andb_true_iff in Hok; destruct Hok as [Hok ?]).
+    rename H into Hsubs, H0 into Hdsubs, H1 into Hdtests, H2 into Htests, H3 into Htdok, H4 into Hsuok, H5 into Hen.
+    set (u := pp ++ [m_name mt]) in *.
+    assert (Hu : u <> []) by (unfold u; destruct pp; discriminate).
+    cbn [replay_suite]. rewrite go_seq_all. unfold node_path. cbn [n_parent n_meta]. fold u.
+    set (nd := mkNode pp mt 0).
+    set (st0 := mkS false RNone RNone).
+    (* 1. SuiteStart *)
+    set (c1 := put_suite c u st0).
+    assert (E0 : forall t, check_event m c (ESuiteStart nd t) = Some c1).
+    { intro t. cbn [check_event]. rewrite Hp, Htd. unfold node_path. cbn [n_parent n_meta nd]. fold u.
+      cbn [rstate_eqb m m_unfinished replay_mode orb andb].
+      assert (E : match pp with [] => true | _ :: _ => suite_open c pp end = true).
+      { destruct pp; auto. }
+      rewrite E. rewrite (lookup_none_forall _ _ path_eqb u (c_suites c)). reflexivity.
+      eapply Forall_impl; [|exact HFS]. intros kv Hk. cbv beta in *.
+      destruct (path_eqb (fst kv) u) eqn:E2; auto. apply path_eqb_eq in E2. rewrite E2, has_prefix_refl in Hk. discriminate. }
+    assert (O1 : Open u c1 st0).
+    { unfold Open. cbn [c1 put_suite c_phase c_teardown c_suites]. repeat split; auto.
+      - apply (prefixes_open_new_child (c_suites c) st0 (m_name mt) pp []); auto.
+      - simpl. rewrite path_eqb_refl. reflexivity. }
+    (* 2. setup *)
+    destruct (chk_suite_setup now th pp mt u x c1 eq_refl O1) as [c2 [xs [E2 [O2 X2]]]]; auto.
+    { apply no_test_of_fresh; auto. }
+    (* 3. tests *)
+    destruct X2 as [T2 [ds2 [S2 G2]]].
+    destruct (chk_tests now th u (mkS false xs RNone) tests c2 O2 eq_refl) as [es3 [c3 [R3 [E3 [O3 [S3 [dt3 [T3 G3]]]]]]]]; auto.
+    { intros t Ht. rewrite T2. cbn [c1 put_suite c_tests]. apply lookup_none_forall.
+      eapply Forall_impl; [|exact HFT]. intros kv Hk. cbv beta in *.
+      destruct (path_eqb (fst kv) (u ++ [m_name (t_meta t)])) eqn:E; auto.
+      apply path_eqb_eq in E. rewrite E, below_child in Hk. discriminate. }
+    (* 4. sub-suites *)
+    destruct (chk_suites_loop u subs HP Hsubs c3) as [es4 [c4 [R4 [E4 [I4 [[ds4 [S4 G4]] [dt4 [T4 G5]]]]]]]]; auto.
+    { destruct O3 as (A1 & A2 & A3 & _). split; auto. }
+    { intros s' Hs'. split.
+      - unfold FS. rewrite S3, S2. cbn [c1 put_suite c_suites]. apply Forall_app. split.
+        + eapply Forall_impl; [|exact G2]. intros [k v] Hk. simpl in *. subst k.
+          destruct (has_prefix (u ++ [m_name (s_meta_of s')]) u) eqn:E; auto.
+          apply has_prefix_len in E. rewrite app_length in E. simpl in E. lia.
+        + constructor; [|apply FS_child; exact HFS]. simpl.
+          destruct (has_prefix (u ++ [m_name (s_meta_of s')]) u) eqn:E; auto.
+          apply has_prefix_len in E. rewrite app_length in E. simpl in E. lia.
+      - unfold FT. rewrite T3, T2. cbn [c1 put_suite c_tests]. apply Forall_app. split.
+        + eapply Forall_impl; [|exact G3]. intros [k v] [x0 Hk]. simpl in *. subst k.
+          apply below_short. rewrite !app_length. simpl. lia.
+        + apply FT_child. exact HFT. }
+    assert (O4 : Open u c4 (mkS false xs RNone)).
+    { destruct I4 as (A1 & A2 & A3). destruct O3 as (_ & _ & _ & B4 & B5 & B6).
+      unfold Open. repeat split; auto.
+      rewrite S4. rewrite lookup_app_none; auto.
+      eapply Forall_impl; [|exact G4]. intros kv Hk. cbv beta in *.
+      apply path_eqb_false_len. apply below_len in Hk. lia. }
+    (* 5. teardown *)
+    destruct (chk_suite_teardown now th pp mt u y c4 xs eq_refl O4) as [c5 [ys [E5 [O5 X5]]]]; auto.
+    (* assemble *)
+    rewrite R3, R4. unfold seq, fire. cbn [fst snd].
+    assert (Hext : Ext u c c5).
+    { eapply Ext_trans; [apply (Ext_put_suite u c st0)|]. fold c1.
+      eapply Ext_trans; [apply ExtSelf_Ext; split; [exact T2|exists ds2; auto]|].
+      eapply Ext_trans.
+      { split; [exists []; split; [exact S3|constructor]|exists dt3; split; [exact T3|]].
+        eapply Forall_impl; [|exact G3]. intros [k v] [x0 Hk]. simpl in *. subst k. apply below_child. }
+      eapply Ext_trans.
+      { split; [exists ds4; split; [exact S4|]|exists dt4; split; [exact T4|exact G5]].
+        eapply Forall_impl; [|exact G4]. intros kv Hk. apply below_has_prefix. exact Hk. }
+      apply ExtSelf_Ext. exact X5. }
+    destruct (truthy_time e) eqn:Ee.
+    - eexists. exists (put_suite c5 u (mkS true xs ys)). split; [reflexivity|].
+      split; [|split; [|split]].
+      + rewrite <- app_comm_cons. cbn [check_all]. rewrite E0.
+        rewrite check_all_app. unfold nd, m in *. rewrite E2.
+        rewrite check_all_app. rewrite E3. rewrite check_all_app. rewrite E4.
+        rewrite check_all_app. rewrite E5.
+        cbn [check_all check_event]. destruct O5 as (A1 & A2 & A3 & A4 & A5 & A6).
+        rewrite A1. unfold node_path. cbn [n_parent n_meta nd]. fold u.
+        rewrite (open_suite_Open u c5 _ (conj A1 (conj A2 (conj A3 (conj A4 (conj A5 A6)))))).
+        reflexivity.
+      + destruct O5 as (A1 & _). exact A1.
+      + destruct O5 as (_ & A2 & _). exact A2.
+      + eapply Ext_trans; [exact Hext|]. apply Ext_put_suite.
+    - eexists. exists c5. split; [reflexivity|].
+      split; [|split; [|split]].
+      + rewrite <- app_comm_cons. cbn [check_all]. rewrite E0.
+        rewrite check_all_app. unfold nd, m in *. rewrite E2.
+        rewrite check_all_app. rewrite E3. rewrite check_all_app. rewrite E4.
+        rewrite check_all_app. rewrite E5. reflexivity.
+      + destruct O5 as (A1 & _). exact A1.
+      + destruct O5 as (_ & A2 & _). exact A2.
+      + exact Hext.
+  Qed.
+
+  (* ---------------- session setup / teardown, the report ---------------- *)
+  Lemma chk_session_setup : forall o c,
+    c_phase c = PRunning -> c_setup c = RNone -> c_teardown c = RNone -> c_suites c = [] -> opt_result_ok o = true ->
+    exists c', check_all m c (replay_phase replay_step now th LocSessionSetup ESessionSetupStart ESessionSetupEnd o) = Some c' /\
+      c_phase c' = PRunning /\ c_teardown c' = RNone /\ c_suites c' = [] /\ c_tests c' = c_tests c.
+  Proof.
+    intros o c Hp Hs Ht Hsu Hok. destruct o as [r|]; [|exists c; auto].
+    unfold replay_phase. cbn [check_all check_event]. rewrite Hp, Hs, Ht, Hsu. cbn [rstate_eqb andb guard].
+    set (c1 := set_setup c ROpen).
+    rewrite check_all_app.
+    destruct (chk_steps now th LocSessionSetup (r_steps r) c1) as [S1 E1]; [exact Hp| |].
+    { cbn [result_open c1 set_setup c_setup c_suites rstate_eqb]. rewrite Hsu. reflexivity. }
+    unfold m. rewrite E1. destruct (truthy_time (r_end r)).
+    - cbn [check_all check_event c_phase with_steps c1 set_setup c_setup]. rewrite Hp.
+      cbn [rstate_eqb andb m_unfinished replay_mode orb guard].
+      eexists. split; [reflexivity|]. cbn. auto.
+    - cbn [check_all]. eexists. split; [reflexivity|]. cbn. auto.
+  Qed.
+
+  Lemma chk_session_teardown : forall o c,
+    c_phase c = PRunning -> c_teardown c = RNone -> opt_result_ok o = true ->
+    exists c', check_all m c (replay_phase replay_step now th LocSessionTeardown ESessionTeardownStart ESessionTeardownEnd o) = Some c' /\
+      c_phase c' = PRunning.
+  Proof.
+    intros o c Hp Ht Hok. destruct o as [r|]; [|exists c; auto].
+    unfold replay_phase. cbn [check_all check_event]. rewrite Hp, Ht. cbn [rstate_eqb andb m m_unfinished replay_mode orb guard].
+    set (c1 := set_teardown c ROpen).
+    rewrite check_all_app.
+    destruct (chk_steps now th LocSessionTeardown (r_steps r) c1) as [S1 E1]; [exact Hp|reflexivity|].
+    unfold m. rewrite E1. destruct (truthy_time (r_end r)).
+    - cbn [check_all check_event c_phase with_steps c1 set_teardown c_teardown]. rewrite Hp.
+      cbn [rstate_eqb andb m_unfinished replay_mode orb guard].
+      eexists. split; [reflexivity|]. exact Hp.
+    - cbn [check_all]. eexists. split; [reflexivity|]. exact Hp.
+  Qed.
+
+  Theorem replay_stream_ok : forall r, replayable r = true ->
+    stream_ok replay_mode (fst (replay_report_events now th r)) = true.
+  Proof.
+    intros r Hok. unfold replayable in Hok. repeat (apply andb_true_iff in Hok; destruct Hok as [Hok ?]).
+    rename H into Hsuites, H0 into Hd, H1 into Htd, H2 into Hsu, H3 into Hen.
+    unfold replay_report_events, replay.
+    set (c0 := set_phase init_cstate PRunning).
+    destruct (chk_session_setup (rp_session_setup r) c0) as [c1 [E1 [P1 [T1 [S1 X1]]]]]; auto.
+    destruct (chk_suites_loop [] (rp_suites r)) with (c := c1) as [es2 [c2 [R2 [E2 [[P2 [T2 _]] _]]]]]; auto.
+    { apply Forall_forall. intros. apply replay_suite_chk. }
+    { split; auto. }
+    { intros s' _. rewrite S1, X1. split; constructor. }
+    destruct (chk_session_teardown (rp_session_teardown r) c2) as [c3 [E3 P3]]; auto.
+    rewrite R2. unfold seq, fire. cbn [fst snd]. unfold stream_ok.
+    rewrite <- app_comm_cons. cbn [check_all check_event init_cstate c_phase]. fold c0.
+    rewrite check_all_app. unfold m in *. rewrite E1.
+    rewrite check_all_app. rewrite E2.
+    rewrite check_all_app. rewrite E3.
+    destruct (truthy_time (rp_end r)).
+    - cbn [check_all check_event]. rewrite P3. cbn [m_unfinished replay_mode orb guard set_phase c_phase]. reflexivity.
+    - cbn [check_all]. rewrite P3. reflexivity.
+  Qed.
+End Stream3.
+
+(* ---------------- contiguity ---------------- *)
+Lemma location_eqb_eq : forall a b, location_eqb a b = true -> a = b.
+Proof. destruct a, b; simpl; intros; try discriminate; auto; f_equal; apply path_eqb_eq; assumption. Qed.
+
+Definition notin (l : location) (seen : list location) : Prop := existsb (location_eqb l) seen = false.
+Definition cur_ok (cur : option location) (seen : list location) : Prop :=
+  match cur with Some x => existsb (location_eqb x) seen = true | None => True end.
+Definition loc_under (u : path) (l : location) : bool :=
+  match l with
+  | LocSuiteSetup p | LocSuiteTeardown p => has_prefix u p
+  | LocTest p => below u p
+  | _ => false
+  end.
+Definition Fresh (u : path) (seen : list location) : Prop := Forall (fun l => loc_under u l = false) seen.
+
+Lemma notin_cons : forall l x seen, location_eqb l x = false -> notin l seen -> notin l (x :: seen).
+Proof. unfold notin. intros. simpl. rewrite H, H0. reflexivity. Qed.
+
+Lemma notin_app : forall l d seen, notin l d -> notin l seen -> notin l (d ++ seen).
+Proof. unfold notin. intros. rewrite existsb_app, H, H0. reflexivity. Qed.
+
+Lemma notin_fresh : forall u l seen, Fresh u seen -> loc_under u l = true -> notin l seen.
+Proof.
+  unfold notin, Fresh. intros u l seen H Hl. induction H; simpl; auto.
+  rewrite IHForall, orb_false_r. destruct (location_eqb l x) eqn:E; auto.
+  apply location_eqb_eq in E. subst. congruence.
+Qed.
+
+Lemma notin_under : forall u l d, Forall (fun x => loc_under u x = true) d -> loc_under u l = false -> notin l d.
+Proof.
+  unfold notin. intros u l d H Hl. induction H; simpl; auto.
+  rewrite IHForall, orb_false_r. destruct (location_eqb l x) eqn:E; auto.
+  apply location_eqb_eq in E. subst. congruence.
+Qed.
+
+Lemma notin_forall : forall l d, Forall (fun x => location_eqb l x = false) d -> notin l d.
+Proof. unfold notin. induction 1; simpl; auto. rewrite H, IHForall. reflexivity. Qed.
+
+Lemma cur_ok_app : forall cur d seen, cur_ok cur seen -> cur_ok cur (d ++ seen).
+Proof. unfold cur_ok. destruct cur; auto. intros. rewrite existsb_app, H. apply orb_true_r. Qed.
+
+Lemma cf_none : forall e cur seen rest, event_result e = None ->
+  contiguous_from cur seen (e :: rest) = contiguous_from None seen rest.
+Proof. intros. cbn [contiguous_from]. rewrite H. reflexivity. Qed.
+
+Lemma cf_block : forall loc seen block rest, Forall (fun e => event_result e = Some loc) block ->
+  contiguous_from (Some loc) seen (block ++ rest) = contiguous_from (Some loc) seen rest.
+Proof.
+  induction block; simpl; intros; auto. inversion H; subst. rewrite H2, location_eqb_refl. auto.
+Qed.
+
+Lemma cf_enter : forall e loc cur seen rest, event_result e = Some loc -> notin loc seen -> cur_ok cur seen ->
+  contiguous_from cur seen (e :: rest) = contiguous_from (Some loc) (loc :: seen) rest.
+Proof.
+  intros e loc cur seen rest He Hn Hc. cbn [contiguous_from]. rewrite He.
+  assert (E : match cur with Some x => location_eqb x loc | None => false end = false).
+  { destruct cur as [x|]; auto. destruct (location_eqb x loc) eqn:E; auto.
+    apply location_eqb_eq in E. subst. unfold cur_ok, notin in *. congruence. }
+  rewrite E. unfold notin in Hn. rewrite Hn. reflexivity.
+Qed.
+
+Lemma cur_ok_enter : forall loc seen, cur_ok (Some loc) (loc :: seen).
+Proof. intros. unfold cur_ok. simpl. rewrite location_eqb_refl. reflexivity. Qed.
+
+Section Contig.
+  Variable now : Z.
+  Variable th : tid.
+
+  Lemma steps_result : forall loc steps,
+    Forall (fun e => event_result e = Some loc) (replay_steps replay_step now th loc steps).
+  Proof.
+    intros loc. induction steps as [|st steps IH]; [constructor|].
+    unfold replay_steps. cbn [flat_map]. apply Forall_app. split; [|exact IH].
+    unfold replay_step. constructor; [reflexivity|]. apply Forall_app. split.
+    - apply Forall_forall. intros e He. apply in_map_iff in He. destruct He as [lg [E _]]. subst e. destruct lg; reflexivity.
+    - destruct (truthy_time (st_end st)); repeat constructor.
+  Qed.
+
+  (* a block of events of one result *)
+  Lemma cf_result_block : forall loc e block cur seen, event_result e = Some loc ->
+    Forall (fun x => event_result x = Some loc) block -> notin loc seen -> cur_ok cur seen ->
+    forall rest, contiguous_from cur seen ((e :: block) ++ rest) = contiguous_from (Some loc) (loc :: seen) rest.
+  Proof.
+    intros. rewrite <- app_comm_cons. rewrite (cf_enter e loc); auto. apply cf_block. assumption.
+  Qed.
+
+  Lemma cf_phase : forall loc start_ev end_ev o cur seen,
+    (forall t, event_result (start_ev t) = Some loc) -> (forall t, event_result (end_ev t) = Some loc) ->
+    notin loc seen -> cur_ok cur seen ->
+    exists cur' d, (forall rest, contiguous_from cur seen (replay_phase replay_step now th loc start_ev end_ev o ++ rest)
+                                 = contiguous_from cur' (d ++ seen) rest) /\
+      cur_ok cur' (d ++ seen) /\ (d = [] \/ d = [loc]).
+  Proof.
+    intros loc start_ev end_ev o cur seen Hs He Hn Hc. destruct o as [r|].
+    - exists (Some loc), [loc]. split; [|split; [apply cur_ok_enter|auto]].
+      intro rest. unfold replay_phase. apply cf_result_block; auto.
+      apply Forall_app. split; [apply steps_result|]. destruct (truthy_time (r_end r)); repeat constructor. apply He.
+    - exists cur, []. split; [|split; auto]. reflexivity.
+  Qed.
+
+  Lemma cf_test : forall u t cur seen, test_ok t = true ->
+    notin (LocTest (u ++ [m_name (t_meta t)])) seen -> cur_ok cur seen ->
+    exists es, replay_test replay_step now th u t = (es, None) /\
+      forall rest, contiguous_from cur seen (es ++ rest)
+                   = contiguous_from (Some (LocTest (u ++ [m_name (t_meta t)]))) (LocTest (u ++ [m_name (t_meta t)]) :: seen) rest.
+  Proof.
+    intros u t cur seen Hok Hn Hc. destruct t as [tm r]. cbn [t_meta t_result] in *.
+    set (nd := mkNode u tm 0). set (loc := LocTest (u ++ [m_name tm])) in *.
+    unfold test_ok in Hok. cbn [t_result] in Hok. unfold replay_test. cbn [t_result t_meta]. fold nd.
+    assert (Hstarted : forall l, l = ETestStart nd (event_time now (r_start r))
+              :: replay_steps replay_step now th (LocTest (node_path nd)) (r_steps r)
+                 ++ (if truthy_time (r_end r) then [ETestEnd nd (event_time now (r_end r))] else []) ->
+              forall rest, contiguous_from cur seen (l ++ rest) = contiguous_from (Some loc) (loc :: seen) rest).
+    { intros l El rest. subst l. apply cf_result_block; auto.
+      apply Forall_app. split; [apply (steps_result loc)|]. destruct (truthy_time (r_end r)); repeat constructor. }
+    destruct (bypassed r) eqn:Hb.
+    - unfold bypassed in Hb. destruct (r_status r) as [stt|] eqn:Es; [|discriminate].
+      apply orb_true_iff in Hb.
+      assert (Hpf : str_eqb stt s_passed || str_eqb stt s_failed = false).
+      { destruct Hb as [Hb|Hb]; apply str_eqb_eq in Hb; subst; reflexivity. }
+      rewrite Hpf.
+      destruct (str_eqb stt s_skipped) eqn:Hsk.
+      + eexists. split; [reflexivity|]. intro rest. apply (cf_result_block loc _ []); auto.
+      + destruct Hb as [Hb|Hb]; [congruence|]. rewrite Hb.
+        eexists. split; [reflexivity|]. intro rest. apply (cf_result_block loc _ []); auto.
+    - assert (Hst : match r_status r with
+                    | None => True
+                    | Some stt => str_eqb stt s_passed || str_eqb stt s_failed = true end).
+      { pose proof Hok as Hok'. unfold result_ok in Hok'. repeat (apply andb_true_iff in Hok'; destruct Hok' as [Hok' ?]).
+        apply option_eqb_str_eq in H. rewrite H. unfold computed_status.
+        destruct (r_end r); auto. destruct (forallb step_successful (r_steps r)); reflexivity. }
+      destruct (r_status r) as [stt|].
+      + rewrite Hst. eexists. split; [reflexivity|]. apply Hstarted. reflexivity.
+      + eexists. split; [reflexivity|]. apply Hstarted. reflexivity.
+  Qed.
+
+  Lemma cf_tests : forall u tests cur seen,
+    forallb test_ok tests = true -> distinct (map (fun t => m_name (t_meta t)) tests) = true ->
+    (forall t, In t tests -> notin (LocTest (u ++ [m_name (t_meta t)])) seen) -> cur_ok cur seen ->
+    exists es cur' d, seq_all (replay_test replay_step now th u) tests = (es, None) /\
+      (forall rest, contiguous_from cur seen (es ++ rest) = contiguous_from cur' (d ++ seen) rest) /\
+      cur_ok cur' (d ++ seen) /\ Forall (fun l => exists x, l = LocTest (u ++ [x])) d.
+  Proof.
+    intros u. induction tests as [|t tests IH]; intros cur seen Hok Hd Hfresh Hc.
+    - exists [], cur, []. repeat split; auto.
+    - simpl in Hok, Hd. apply andb_true_iff in Hok. destruct Hok as [Hok1 Hok2].
+      apply andb_true_iff in Hd. destruct Hd as [Hd1 Hd2]. apply negb_true_iff in Hd1.
+      destruct (cf_test u t cur seen Hok1 (Hfresh t (or_introl eq_refl)) Hc) as [es1 [R1 C1]].
+      set (loc := LocTest (u ++ [m_name (t_meta t)])) in *.
+      destruct (IH (Some loc) (loc :: seen) Hok2 Hd2) as [es2 [cur' [d [R2 [C2 [K2 F2]]]]]].
+      { intros t' Ht'. apply notin_cons; [|apply Hfresh; right; assumption].
+        unfold loc. simpl. rewrite path_eqb_child; auto.
+        apply str_eqb_sym_false. apply (existsb_false_in _ _ _ (m_name (t_meta t')) Hd1). apply in_map_iff. eauto. }
+      { apply cur_ok_enter. }
+      exists (es1 ++ es2), cur', (d ++ [loc]). split; [|split; [|split]].
+      + cbn [seq_all]. rewrite R1, R2. reflexivity.
+      + intro rest. rewrite <- app_assoc. rewrite C1, C2. rewrite <- app_assoc. reflexivity.
+      + rewrite <- app_assoc. exact K2.
+      + apply Forall_app. split; auto. constructor; [|constructor]. exists (m_name (t_meta t)). reflexivity.
+  Qed.
+
+  Definition suite_cf (s : suite_result) : Prop :=
+    suite_ok s = true -> forall pp cur seen, Fresh (pp ++ [m_name (s_meta_of s)]) seen -> cur_ok cur seen ->
+    exists es cur' d, replay_suite replay_step now th pp s = (es, None) /\
+      (forall rest, contiguous_from cur seen (es ++ rest) = contiguous_from cur' (d ++ seen) rest) /\
+      cur_ok cur' (d ++ seen) /\ Forall (fun l => loc_under (pp ++ [m_name (s_meta_of s)]) l = true) d.
+
+  Lemma Fresh_child : forall u x seen, Fresh u seen -> Fresh (u ++ [x]) seen.
+  Proof.
+    intros u x seen H. eapply Forall_impl; [|exact H]. intros l Hl. cbv beta in *.
+    destruct l; simpl in *; auto.
+    - destruct (has_prefix (u ++ [x]) p) eqn:E; auto.
+      rewrite (has_prefix_trans u (u ++ [x]) p) in Hl; auto using has_prefix_app.
+    - destruct (has_prefix (u ++ [x]) p) eqn:E; auto.
+      rewrite (has_prefix_trans u (u ++ [x]) p) in Hl; auto using has_prefix_app.
+    - destruct (below (u ++ [x]) p) eqn:E; auto. rewrite (below_trans_child _ _ _ E) in Hl. discriminate.
+  Qed.
+
+  Lemma under_child : forall u x l, loc_under (u ++ [x]) l = true -> loc_under u l = true.
+  Proof.
+    intros u x l H. destruct l; simpl in *; auto.
+    - eapply has_prefix_trans; [apply has_prefix_app|exact H].
+    - eapply has_prefix_trans; [apply has_prefix_app|exact H].
+    - eapply below_trans_child. exact H.
+  Qed.
+
+  Lemma under_diverge : forall u a b l, str_eqb a b = false -> loc_under (u ++ [b]) l = true -> loc_under (u ++ [a]) l = false.
+  Proof.
+    intros u a b l Hab H. destruct l; simpl in *; auto.
+    - eapply has_prefix_diverge; eauto.
+    - eapply has_prefix_diverge; eauto.
+    - eapply below_diverge; eauto.
+  Qed.
+
+  Lemma cf_suites_loop : forall pp subs, Forall suite_cf subs -> forallb suite_ok subs = true ->
+    forall cur seen, (forall s', In s' subs -> Fresh (pp ++ [m_name (s_meta_of s')]) seen) ->
+    distinct (map (fun u => m_name (s_meta_of u)) subs) = true -> cur_ok cur seen ->
+    exists es cur' d, seq_all (replay_suite replay_step now th pp) subs = (es, None) /\
+      (forall rest, contiguous_from cur seen (es ++ rest) = contiguous_from cur' (d ++ seen) rest) /\
+      cur_ok cur' (d ++ seen) /\ Forall (fun l => exists x, loc_under (pp ++ [x]) l = true) d.
+  Proof.
+    intros pp. induction subs as [|s1 subs IH]; intros HP Hok cur seen Hfresh Hd Hc.
+    - exists [], cur, []. repeat split; auto.
+    - inversion HP as [|? ? P1 P2]; subst. simpl in Hok, Hd.
+      apply andb_true_iff in Hok. destruct Hok as [Hok1 Hok2].
+      apply andb_true_iff in Hd. destruct Hd as [Hd1 Hd2]. apply negb_true_iff in Hd1.
+      destruct (P1 Hok1 pp cur seen (Hfresh s1 (or_introl eq_refl)) Hc) as [es1 [cur1 [d1 [R1 [C1 [K1 F1]]]]]].
+      destruct (IH P2 Hok2 cur1 (d1 ++ seen)) as [es2 [cur2 [d2 [R2 [C2 [K2 F2]]]]]]; auto.
+      { intros s' Hs'. unfold Fresh. apply Forall_app. split; [|apply Hfresh; right; assumption].
+        eapply Forall_impl; [|exact F1]. intros l Hl. cbv beta in *. eapply under_diverge; [|exact Hl].
+        apply str_eqb_sym_false. apply (existsb_false_in _ _ _ (m_name (s_meta_of s')) Hd1). apply in_map_iff. eauto. }
+      exists (es1 ++ es2), cur2, (d2 ++ d1). split; [|split; [|split]].
+      + cbn [seq_all]. rewrite R1, R2. reflexivity.
+      + intro rest. rewrite <- app_assoc. rewrite C1, C2. rewrite <- app_assoc. reflexivity.
+      + rewrite <- app_assoc. exact K2.
+      + apply Forall_app. split; auto. eapply Forall_impl; [|exact F1]. intros l Hl. exists (m_name (s_meta_of s1)). exact Hl.
+  Qed.
+
+  Lemma replay_suite_cf : forall s, suite_cf s.
+  Proof.
+    induction s using suite_ind'. rename H into HP, m into mt.
+    unfold suite_cf. intros Hok pp cur seen HF Hc. cbn [s_meta_of] in *.
+    cbn [suite_ok] in Hok. repeat (apply andb_true_iff in Hok; destruct Hok as [Hok ?]).
+    rename H into Hsubs, H0 into Hdsubs, H1 into Hdtests, H2 into Htests, H3 into Htdok, H4 into Hsuok, H5 into Hen.
+    set (u := pp ++ [m_name mt]) in *.
+    cbn [replay_suite]. rewrite go_seq_all. unfold node_path. cbn [n_parent n_meta]. fold u.
+    set (nd := mkNode pp mt 0).
+    assert (Hlen : forall x, has_prefix (u ++ [x]) u = false).
+    { intro. destruct (has_prefix (u ++ [x0]) u) eqn:E; auto. apply has_prefix_len in E. rewrite app_length in E. simpl in E. lia. }
+    (* setup *)
+    destruct (cf_phase (LocSuiteSetup u) (ESuiteSetupStart nd) (ESuiteSetupEnd nd) x None seen) as [cur1 [d1 [C1 [K1 D1]]]];
+      try (intro; reflexivity); [| exact I |].
+    { apply (notin_fresh u); auto. simpl. apply has_prefix_refl. }
+    assert (F1 : Forall (fun l => l = LocSuiteSetup u) d1) by (destruct D1; subst; repeat constructor).
+    (* tests *)
+    destruct (cf_tests u tests cur1 (d1 ++ seen) Htests Hdtests) as [es2 [cur2 [d2 [R2 [C2 [K2 F2]]]]]]; auto.
+    { intros t Ht. apply notin_app.
+      - destruct D1; subst; [reflexivity|]. reflexivity.
+      - apply (notin_fresh u); auto. simpl. apply below_child. }
+    (* sub-suites *)
+    destruct (cf_suites_loop u subs HP Hsubs cur2 (d2 ++ d1 ++ seen)) as [es3 [cur3 [d3 [R3 [C3 [K3 F3]]]]]]; auto.
+    { intros s' Hs'. unfold Fresh. apply Forall_app. split; [|apply Forall_app; split].
+      - eapply Forall_impl; [|exact F2]. intros l [x0 Hl]. subst l. simpl. apply below_short. rewrite !app_length. simpl. lia.
+      - eapply Forall_impl; [|exact F1]. intros l Hl. cbv beta in Hl. subst l. simpl. apply Hlen.
+      - apply Fresh_child. exact HF. }
+    (* teardown *)
+    destruct (cf_phase (LocSuiteTeardown u) (ESuiteTeardownStart nd) (ESuiteTeardownEnd nd) y cur3 (d3 ++ d2 ++ d1 ++ seen))
+      as [cur4 [d4 [C4 [K4 D4]]]]; try (intro; reflexivity); auto.
+    { apply notin_app; [|apply notin_app; [|apply notin_app]].
+      - apply notin_forall. eapply Forall_impl; [|exact F3]. intros l [x1 Hx1]. destruct l; simpl in *; auto.
+        destruct (path_eqb u p) eqn:E; auto. apply path_eqb_eq in E. subst p. rewrite Hlen in Hx1. discriminate.
+      - apply notin_forall. eapply Forall_impl; [|exact F2]. intros l [x1 Hx1]. subst. reflexivity.
+      - destruct D1; subst; reflexivity.
+      - apply (notin_fresh u); auto. simpl. apply has_prefix_refl. }
+    rewrite R2, R3. unfold seq, fire. cbn [fst snd].
+    eexists. exists (if truthy_time e then None else cur4), (d4 ++ d3 ++ d2 ++ d1). split; [reflexivity|]. split; [|split].
+    - intro rest. rewrite <- !app_assoc. rewrite <- app_comm_cons. rewrite cf_none by reflexivity.
+      rewrite C1, C2, C3, C4.
+      destruct (truthy_time e).
+      + cbn [app]. rewrite cf_none by reflexivity. reflexivity.
+      + reflexivity.
+    - rewrite <- !app_assoc. destruct (truthy_time e); [exact I|exact K4].
+    - apply Forall_app. split; [|apply Forall_app; split; [|apply Forall_app; split]].
+      + destruct D4; subst; repeat constructor. simpl. apply has_prefix_refl.
+      + eapply Forall_impl; [|exact F3]. intros l [x0 Hl]. eapply under_child. exact Hl.
+      + eapply Forall_impl; [|exact F2]. intros l [x0 Hl]. subst l. simpl. apply below_child.
+      + eapply Forall_impl; [|exact F1]. intros l Hl. cbv beta in Hl. subst l. simpl. apply has_prefix_refl.
+  Qed.
+
+  Theorem replay_contiguous : forall r, replayable r = true ->
+    contiguous (fst (replay_report_events now th r)) = true.
+  Proof.
+    intros r Hok. unfold replayable in Hok. repeat (apply andb_true_iff in Hok; destruct Hok as [Hok ?]).
+    rename H into Hsuites, H0 into Hd, H1 into Htd, H2 into Hsu, H3 into Hen.
+    unfold replay_report_events, replay, contiguous.
+    destruct (cf_phase LocSessionSetup ESessionSetupStart ESessionSetupEnd (rp_session_setup r) None [])
+      as [cur1 [d1 [C1 [K1 D1]]]]; try (intro; reflexivity); [reflexivity|exact I|].
+    destruct (cf_suites_loop [] (rp_suites r)) with (cur := cur1) (seen := d1 ++ []) as [es2 [cur2 [d2 [R2 [C2 [K2 F2]]]]]]; auto.
+    { apply Forall_forall. intros. apply replay_suite_cf. }
+    { intros s' _. unfold Fresh. rewrite app_nil_r. destruct D1; subst; repeat constructor. }
+    destruct (cf_phase LocSessionTeardown ESessionTeardownStart ESessionTeardownEnd (rp_session_teardown r) cur2 (d2 ++ d1 ++ []))
+      as [cur3 [d3 [C3 [K3 D3]]]]; try (intro; reflexivity); auto.
+    { apply notin_app; [|apply notin_app; [|reflexivity]].
+      - apply notin_forall. eapply Forall_impl; [|exact F2]. intros l [x1 Hx1]. destruct l; simpl in *; auto; discriminate.
+      - destruct D1; subst; reflexivity. }
+    rewrite R2. unfold seq, fire. cbn [fst snd].
+    rewrite <- app_comm_cons. rewrite cf_none by reflexivity.
+    rewrite C1, C2, C3.
+    destruct (truthy_time (rp_end r)); reflexivity.
+  Qed.
+End Contig.
+
+Theorem replay_sequential : forall now th r, replayable r = true ->
+  sequential_ok replay_mode (fst (replay_report_events now th r)) = true.
+Proof.
+  intros. unfold sequential_ok. rewrite replay_stream_ok, replay_contiguous; auto.
 Qed.
